@@ -358,6 +358,13 @@ func (ca *CertificateAuthority) upload(ctx context.Context, manifest *cpb.GCECer
 	} else {
 		name = ca.certObjectName(cert)
 	}
+	// An object that the manifest records for another key version holds that key version's
+	// certificate. Replacing it is never what --overwrite or --keep_going are for: they are about
+	// leftovers of earlier attempts and about this key version's own entry.
+	if holder, held := otherKeyVersionOf(manifest, name, keyVersionName); held {
+		return nil, status.Errorf(codes.AlreadyExists,
+			"certificate object %q already holds the certificate of key version %q", name, holder)
+	}
 	// The non-root certificates are expected to be in DER format. See the CertificateAuthority
 	// interface.
 	exists, err := ca.writeIfAllowed(ctx, name, cert.Raw)
@@ -387,6 +394,17 @@ func getEntry(manifest *cpb.GCECertificateManifest, keyVersionName string) *cpb.
 		}
 	}
 	return nil
+}
+
+// otherKeyVersionOf returns the name of a key version other than keyVersionName whose manifest entry
+// names objectPath, and whether there is one.
+func otherKeyVersionOf(manifest *cpb.GCECertificateManifest, objectPath, keyVersionName string) (string, bool) {
+	for _, entry := range manifest.Entries {
+		if entry.ObjectPath == objectPath && entry.KeyVersionName != keyVersionName {
+			return entry.KeyVersionName, true
+		}
+	}
+	return "", false
 }
 
 // PrepareResources ensures all necessary resources are present for the CA to function. This is
